@@ -39,6 +39,7 @@ func rec(e Effect) {
 type File struct {
 	*orig.File
 	path string
+	flag int
 }
 
 var (
@@ -62,7 +63,7 @@ func wrap(f *orig.File, err error, op, name string, flag int) (*File, error) {
 	if err != nil {
 		return nil, err
 	}
-	vf := &File{File: f, path: name}
+	vf := &File{File: f, path: name, flag: flag}
 	openFiles[vf] = true
 	return vf, nil
 }
@@ -105,13 +106,24 @@ func (f *File) Write(p []byte) (int, error) {
 	if Fault != nil {
 		if err := Fault(Effect{Op: "write", Path: f.path, Data: p}); err != nil {
 			half := p[:len(p)/2]
-			rec(Effect{Op: "write", Path: f.path, Data: append([]byte(nil), half...)})
+			rec(Effect{Op: "write", Path: f.path, Off: f.writeOff(), Data: append([]byte(nil), half...)})
 			n, _ := f.File.Write(half)
 			return n, &orig.PathError{Op: "write", Path: f.path, Err: err}
 		}
 	}
-	rec(Effect{Op: "write", Path: f.path, Data: append([]byte(nil), p...)})
+	rec(Effect{Op: "write", Path: f.path, Off: f.writeOff(), Data: append([]byte(nil), p...)})
 	return f.File.Write(p)
+}
+
+// writeOff: where the next Write lands: -1 = at the end (O_APPEND), else the file position
+func (f *File) writeOff() int64 {
+	if f.flag&orig.O_APPEND != 0 {
+		return -1
+	}
+	if off, err := f.File.Seek(0, 1); err == nil {
+		return off
+	}
+	return -1
 }
 func (f *File) WriteString(s string) (int, error) { return f.Write([]byte(s)) }
 func (f *File) WriteAt(p []byte, off int64) (int, error) {
